@@ -11,4 +11,7 @@ PROPS = {
     "C04": dict(pkg="./props/c04", level="fault_enumeration",
                 quick=dict(shards=16, checks=640, timeout=300),
                 thorough=dict(shards=16, checks=16000, timeout=1800)),
+    "C05": dict(pkg="./props/c05", level="exploration",
+                quick=dict(shards=12, checks=3600, timeout=300),
+                thorough=dict(shards=16, checks=64000, timeout=1800)),
 }
